@@ -41,7 +41,10 @@ TInit == /\ tid \in 1..N /\ l = 0 /\ doc = Cases[tid].seed
          /\ last = [f |-> "init"] /\ n = 0 /\ hist = <<>>
 TNext == /\ l < Len(Cases[tid].steps)
          /\ LET e == Cases[tid].steps[l + 1] IN
-            /\ PrintT(ToJson([id |-> Cases[tid].id, l |-> l + 1, bad |-> Clauses(doc, e)]))
+            /\ PrintT(ToJson([id |-> Cases[tid].id, l |-> l + 1, bad |-> Clauses(doc, e),
+                               \* a write through a synthesized view may leave state the text does not show: the rest of
+                               \* such a history is not judged
+                               unspec |-> MApply(doc, e.op).res = "unspecified" /\ e.op.m # "get"]))
             /\ doc' = e.post
          /\ l' = l + 1 /\ UNCHANGED <<tid, last, n, hist>>
 TView == <<tid, l>>
